@@ -244,6 +244,11 @@ func cmdCheck(args []string) int {
 	if len(vacuous) > 0 {
 		return undecided("vacuous-assumptions " + strings.Join(vacuous, ","))
 	}
+	for _, o := range all {
+		if o.Result == "error" || o.Result == "too-large" {
+			return undecided("engine-error obligation=" + o.Name + " " + firstLines(o.Output, 2))
+		}
+	}
 	sort.Strings(knownHits)
 	for _, k := range dedupeStrings(knownHits) {
 		fmt.Println(k)
